@@ -34,6 +34,8 @@ type pairMon struct {
 
 	// key prefix for violations (property specific)
 	kp string
+
+	projCache map[string][]string
 }
 
 func newPairMon(c *vk.Case, env *scen.Env, src, ig string) *pairMon {
@@ -251,10 +253,8 @@ func (pm *pairMon) stepVerdict(res *scen.StepResult, plan string, batch int, det
 		if !pm.hasPos {
 			// first commit of the pair: previous position is the block before the first one fetched
 			lo := cur.num
-			for n := range versions {
-				if n < lo && pm.fetchedAsData(res, n) {
-					lo = n
-				}
+			if n, ok := lastHashLookup(res.Served); ok && n+1 <= cur.num {
+				lo = n + 1
 			}
 			p = lo - 1
 			pm.first = lo
@@ -323,6 +323,26 @@ func (pm *pairMon) stepVerdict(res *scen.StepResult, plan string, batch int, det
 // COMMIT (the client cannot know the outcome).
 func ambiguousCommitError(res *scen.StepResult) bool {
 	return res.Err != nil && strings.Contains(res.Err.Error(), "committing task tx")
+}
+
+// lastHashLookup finds the last single (non-batched) eth_getBlockByNumber(n,true)
+// of a step: that is how a pair without a recorded position asks for the hash of
+// the block before its first one, so its first block is n+1.
+func lastHashLookup(served []simnode.Served) (uint64, bool) {
+	var (
+		n  uint64
+		ok bool
+	)
+	for _, s := range served {
+		if s.Poller || s.Batched || s.Method != "eth_getBlockByNumber" || s.Arg == "latest" || !s.Full {
+			continue
+		}
+		var v uint64
+		if _, err := fmt.Sscanf(s.Arg, "%d", &v); err == nil {
+			n, ok = v, true
+		}
+	}
+	return n, ok
 }
 
 func (pm *pairMon) fetchedAsData(res *scen.StepResult, n uint64) bool {
